@@ -9,6 +9,8 @@ from __future__ import annotations
 import math
 
 import numpy as np
+import datetime as _dt
+
 import pandas as pd
 
 T, TD = pd.Timestamp, pd.Timedelta
@@ -29,6 +31,15 @@ def enc(v):
         return {"$f": repr(v)}
     if isinstance(v, complex):
         return {"$c": [v.real, v.imag]}
+    # plain python date/time objects (object columns)
+    if isinstance(v, _dt.datetime):
+        return {"$pydt": v.isoformat()}
+    if isinstance(v, _dt.date):
+        return {"$pydate": v.isoformat()}
+    if isinstance(v, _dt.time):
+        return {"$pytime": v.isoformat()}
+    if isinstance(v, _dt.timedelta):
+        return {"$pytd": [v.days, v.seconds, v.microseconds]}
     return v
 
 
@@ -45,6 +56,14 @@ def dec(v):
             return complex(*v["$c"])
         if "$nan" in v:
             return float("nan")
+        if "$pydt" in v:
+            return _dt.datetime.fromisoformat(v["$pydt"])
+        if "$pydate" in v:
+            return _dt.date.fromisoformat(v["$pydate"])
+        if "$pytime" in v:
+            return _dt.time.fromisoformat(v["$pytime"])
+        if "$pytd" in v:
+            return _dt.timedelta(*v["$pytd"])
     return v
 
 
@@ -97,6 +116,21 @@ CLASSES = {
     "obj-bool": ("object", [True, False], "None"),
     "obj-timestamp": ("object", TS[:3], "None"),
     "obj-timedelta": ("object", TDS[:3], "None"),
+    # datetime-like python objects that nanosecond resolution cannot hold (or
+    # that have no pandas dtype): the column must stay an object column
+    "obj-pydatetime-out-of-ns-bounds": (
+        "object", [_dt.datetime(1500, 1, 1), _dt.datetime(2020, 1, 1, 12),
+                   _dt.datetime(3000, 6, 30)], "None"),
+    "obj-timestamp-mixed-tz": (
+        "object", [T("2020-01-01", tz="UTC"), T("2020-01-01", tz="Asia/Tokyo"),
+                   T("2021-05-05 05:05", tz="Europe/Berlin")], "None"),
+    "obj-pytime": ("object", [_dt.time(1, 2, 3), _dt.time(23, 59, 59),
+                              _dt.time(0)], "None"),
+    "obj-pydate": ("object", [_dt.date(2020, 1, 1), _dt.date(1500, 1, 1),
+                              _dt.date(2999, 12, 31)], "None"),
+    "obj-pytimedelta-huge": (
+        "object", [_dt.timedelta(days=200000), _dt.timedelta(days=1),
+                   _dt.timedelta(days=-150000)], "None"),
     # categorical
     "cat-str": ("category", ["a", "b", "c d"], "cat-null"),
     "cat-int": ("category", [1, 2, 30], "cat-null"),
